@@ -304,11 +304,11 @@ func (s Sel) String() string {
 
 // Query is one entry of the query menu. Range and Ivl index the tables below.
 type Query struct {
-	Sels  []Sel `json:"sels"`
-	Range int   `json:"range"`
-	Ivl   int   `json:"ivl"`
+	Sels  []Sel  `json:"sels"`
+	Range int    `json:"range"`
+	Ivl   int    `json:"ivl"`
 	Cond  string `json:"cond"` // "" | a | b: where host='<cond>'
-	GB    bool  `json:"gb"`   // group by host
+	GB    bool   `json:"gb"`   // group by host
 }
 
 type rangeDef struct {
@@ -320,9 +320,9 @@ type rangeDef struct {
 const s0 = 20
 
 var ranges = []rangeDef{
-	{"family", 0, familyMs - 1},                                  // the whole first family (diff < 1h)
-	{"two-families", 0, 2*familyMs - 1},                          // both families (diff >= 1h: interval re-calculation)
-	{"partial", (s0-1)*slotMs + 5000, s0*slotMs + 5000},          // unaligned, only slots s0-1 and s0
+	{"family", 0, familyMs - 1},                                   // the whole first family (diff < 1h)
+	{"two-families", 0, 2*familyMs - 1},                           // both families (diff >= 1h: interval re-calculation)
+	{"partial", (s0-1)*slotMs + 5000, s0*slotMs + 5000},           // unaligned, only slots s0-1 and s0
 	{"family2-partial", familyMs + s0*slotMs, familyMs + 300_000}, // starts inside the second family
 }
 
